@@ -6,7 +6,7 @@
    The statements are about the model of the REPAIRED AsyncLoop.h (Model.v, variant Repaired);
    the code as found is variant Original and carries the refutation. *)
 From Coq Require Import List Bool ZArith.
-From C03 Require Import Model Proofs.
+From C03 Require Import Model Proofs ModelRMW ProofsRMW.
 
 (* the engine: a computed state list that passes the closure check is an inductive invariant *)
 Theorem explore_is_inductive_invariant : forall sys f l (safe : state -> bool),
@@ -114,6 +114,15 @@ Theorem stop_safe_old_refuted : forall l, exists s,
   reachable (l, Original) s /\ stop_ret s = true /\ active s = true.
 Proof. exact stop_unsafe_original. Qed.
 Print Assumptions stop_safe_old_refuted.
+
+(* a variant of the REPAIRED code that keeps shouldBeRunning and insideLoopBody in one atomic word and updates a field
+   by load / modify / store (not an atomic read-modify-write) is unsafe again: stop()'s clear is overwritten by the loop
+   thread's stale write-back and the body runs after stop() returned (schedule ModelRMW.rmw_schedule).  This is why
+   PropertiesFacts.v demands three independent std::atomic<bool> written by plain stores of constants. *)
+Theorem merged_word_rmw_refuted : forall l, exists r,
+  rreachable l r /\ stop_ret (base r) = true /\ active (base r) = true /\ run (base r) = true.
+Proof. exact merged_rmw_unsafe. Qed.
+Print Assumptions merged_word_rmw_refuted.
 
 Theorem old_checker_verdict : check (THREAD, Original) stop_safe_b = false.
 Proof. exact original_checker_says_unsafe. Qed.
